@@ -3,7 +3,7 @@
  * direction of an extended attribute - for one attribute "user.k" whose
  * value is EVERY byte string of VLEN bytes (fully symbolic, NUL bytes
  * included, stored with the NUL behind it as libsquashfs does). stdout is a
- * capture buffer (<= 64 bytes); the printf family is a contract that
+ * capture buffer (<= 30 bytes); the printf family is a contract that
  * interprets %s %c %02X %03o (C standard meaning). The xattr reader is a
  * stub that hands out the list.
  *
@@ -32,13 +32,21 @@
 #ifndef VLEN
 #define VLEN 2
 #endif
-#define CAP_MAX 64
+/* longest sensible text: every byte as \\ooo inside quotes */
+#define CAP_MAX (4 * VLEN + 14)
 static char g_cap[CAP_MAX];
 static size_t g_cap_n;
 static int g_cap_ovf, g_fmt_bad;
 
-#ifdef VERIF_REPLAY
 #include <stdio.h>
+#ifdef VERIF_REPLAY
+int w12_printf(const char *fmt, ...);
+int w12_fprintf(FILE *fp, const char *fmt, ...);
+int w12_putchar(int c);
+int w12_puts(const char *s);
+int w12_fputs(const char *s, FILE *fp);
+int w12_fputc(int c, FILE *fp);
+size_t w12_fwrite(const void *p, size_t sz, size_t n, FILE *fp);
 #undef putchar
 #undef putc
 #define printf w12_printf
@@ -78,6 +86,20 @@ static void out_digits(unsigned int v, unsigned int base, int width)
 		out_c(tmp[--n]);
 }
 
+/* cbmc 6.11 does not apply the default argument promotions to variadic
+ * arguments (printf("%02X", *(value++)) stores a 1-byte object): take the
+ * width of the stored object; natively the promoted type */
+static unsigned int next_uint(va_list *app)
+{
+#ifndef VERIF_REPLAY
+	if (__CPROVER_OBJECT_SIZE(**app) == 1)
+		return va_arg(*app, unsigned char);
+	if (__CPROVER_OBJECT_SIZE(**app) == 2)
+		return va_arg(*app, unsigned short);
+#endif
+	return va_arg(*app, unsigned int);
+}
+
 static void vfmt(const char *fmt, va_list ap)
 {
 	for (; *fmt != '\0'; ++fmt) {
@@ -92,14 +114,14 @@ static void vfmt(const char *fmt, va_list ap)
 			for (; *s != '\0'; ++s)
 				out_c(*s);
 		} else if (fmt[0] == 'c') {
-			out_c((char)va_arg(ap, int));
+			out_c((char)next_uint(&ap));
 		} else if (fmt[0] == '%') {
 			out_c('%');
 		} else if (fmt[0] == '0' && fmt[1] == '2' && fmt[2] == 'X') {
-			out_digits(va_arg(ap, unsigned int), 16, 2);
+			out_digits(next_uint(&ap), 16, 2);
 			fmt += 2;
 		} else if (fmt[0] == '0' && fmt[1] == '3' && fmt[2] == 'o') {
-			out_digits(va_arg(ap, unsigned int), 8, 3);
+			out_digits(next_uint(&ap), 8, 3);
 			fmt += 2;
 		} else {
 			g_fmt_bad = 1;
@@ -181,11 +203,12 @@ static struct {
 } g_ent;
 static int g_freed, g_fail_read;
 
-void sqfs_inode_get_xattr_index(const sqfs_inode_generic_t *inode,
-				sqfs_u32 *out)
+int sqfs_inode_get_xattr_index(const sqfs_inode_generic_t *inode,
+			       sqfs_u32 *out)
 {
 	(void)inode;
 	*out = 3;
+	return 0;
 }
 
 int sqfs_xattr_reader_read_all(sqfs_xattr_reader_t *xr, sqfs_u32 idx,
@@ -220,6 +243,9 @@ void harness(void)
 	const char *text;
 	int ret, verdict, nl = 0;
 
+#ifndef VERIF_REPLAY
+	VERIF_ASSUME(stdout != stderr);	/* libc: two streams */
+#endif
 	g_cap_n = 0;
 	g_cap_ovf = 0;
 	g_fmt_bad = 0;
